@@ -23,7 +23,11 @@ def materialise(root, layout):
                 fh.write(node["raw"])
         else:
             with open(p, "w") as fh:
-                fh.write(formats.dump(node["fmt"], node["docs"], **node.get("kw", {})))
+                kw = dict(node.get("kw", {}))
+                if "bool_case_seed" in kw:
+                    import random
+                    kw["bool_case"] = random.Random(kw.pop("bool_case_seed"))
+                fh.write(formats.dump(node["fmt"], node["docs"], **kw))
 
 
 def model_entries(root, layout):
@@ -127,6 +131,9 @@ def chain_layout(rng, layers, exts=("json", "yaml", "jsonl", "yml"), share=False
     """layers (base first) as files `a.<ext>` <- `a.l1.<ext>` <- ...; share=True writes YAML layers with anchors/aliases for equal
     subtrees (the model sees the plain values: an alias is a copy)"""
     name, layout, top = "a", {}, None
+    # the whole chain with every `$` written as an escape (no `$` byte in any file), or YAML booleans in other spellings
+    esc = rng.random() < 0.15
+    bools = rng.random() < 0.3
     for i, l in enumerate(layers):
         if i:
             name += ".l%d" % i
@@ -136,7 +143,12 @@ def chain_layout(rng, layers, exts=("json", "yaml", "jsonl", "yml"), share=False
         docs = [l]
         if share and ext in ("yaml", "yml"):
             docs = [formats.share_equal(l)]
-        layout[f"{name}.{ext}"] = {"fmt": ext, "docs": docs}
+        node = {"fmt": ext, "docs": docs}
+        if esc:
+            node["kw"] = {"escape_dollar": True}
+        elif bools and ext in ("yaml", "yml"):
+            node["kw"] = {"bool_case_seed": rng.randrange(1 << 30)}
+        layout[f"{name}.{ext}"] = node
         top = f"{name}.{ext}"
     return layout, top
 
